@@ -209,7 +209,14 @@ SURFACES = {s.name: s for s in (SPEC, IMPL, COND, TYPED)}
 
 CONDS = [{"StringEquals": {"aws:username": "bob"}}, {"Bool": {"aws:SecureTransport": "true"}}, {"IpAddress": {"aws:SourceIp": "10.0.0.0/24"}},
          {"DateLessThan": {"aws:CurrentTime": "2020-01-01T00:00:01Z"}}, {"StringLike": {"s3:prefix": ["a/*", "b/*"]}, "Null": {"aws:TokenIssueTime": "false"}},
-         {}]
+         {},
+         # IAM writes a point in time as ISO 8601 text OR as epoch seconds (text or number); numbers as numbers or digit text
+         # (seeded change C13-r6Hm2 refused "a number as a date" in the Date operators: the document silently stopped being one)
+         {"DateLessThan": {"aws:EpochTime": "1767225600"}}, {"DateGreaterThan": {"aws:EpochTime": 1767225600}},
+         {"DateGreaterThanEquals": {"aws:CurrentTime": "2020-06-01"}, "NumericLessThanEquals": {"s3:max-keys": "10"}},
+         {"NumericEquals": {"s3:max-keys": 10}}, {"NotIpAddress": {"aws:SourceIp": ["10.0.0.0/8", "2001:db8::/32"]}},
+         {"ForAnyValue:StringLike": {"aws:TagKeys": ["a*"]}}, {"StringEqualsIfExists": {"aws:RequestTag/x": "y"}},
+         {"Bool": {"aws:MultiFactorAuthPresent": True}}, {"BinaryEquals": {"k": "QmluYXJ5VmFsdWVJbkJhc2U2NA=="}}]
 KEYS = ["A", "B", "C", "Config", "Items", "Policy", "Doc", "Settings", "Rules", "X1", "nested", "snake_case", "Data", "Extra", "Z"]
 FILLER = ["potato", "us-east-1", 1, 0, True, None, "true", "2020-01-01", "10.0.0.1/32", 1.5, "", "arn:aws:s3:::b", [], {}, "[1,2]", '{"a":1}',
           {"Key": "k", "Value": "v"}, {"Ref": "AWS::Region"}, "x y", "*", ["a", "b"], {"a": {"b": "c"}}, "null", '"x"']
@@ -472,6 +479,23 @@ def cases(rng, tier, shard, nshards):
         yield from corpus()
     n = {"quick": 900, "thorough": 14000}[tier]
     types = sorted(TYPED_BASE)
+    if shard == 0:
+        # every modelled type with each of its document positions holding the DEGENERATE documents: no statements at all, one bare
+        # statement, a wrapper list of length 0 / 1 (seeded change C13-r6Am2: PolicyDocument.__len__ made a statement-less document
+        # falsy, and one resource class tests `if not self.Properties.PolicyDocument`)
+        for t in types:
+            for variant in ("empty", "single"):
+                sids = Sids(rng)
+                props = copy.deepcopy(TYPED_BASE[t])
+                for path, kind in schema_paths()[t]:
+                    field = path[:-2] if path.endswith("[]") else path
+                    body = [] if variant == "empty" else statement(rng, sids)
+                    if kind == "Doc":
+                        props[field] = {"Version": "2012-10-17", "Statement": body}
+                    elif kind == "Policy":
+                        props[field] = [] if (variant == "empty" and rng.random() < 0.5) else \
+                            [{"PolicyName": "name-" + sids.next(), "PolicyDocument": {"Statement": body}}]
+                yield TYPED, {"type": t, "props": props}
     for k in range(n):
         sids = Sids(rng)
         if k % 3 == 0:
